@@ -1,7 +1,7 @@
 (* C12: (1) the search of beat_at at a time that coincides with state times - the tag rule;
         (2) beat -> time -> beat on real timing data, for beats strictly between events and outside the warps. *)
-From Coq Require Import List ZArith QArith Bool Lia Lqa Setoid Sorting.Sorted Arith.
-From SV Require Import Sx Beat Engine Proofs.EngineFacts Proofs.Hittable Proofs.TimeLaw.
+From Coq Require Import List ZArith QArith Qabs Bool Lia Lqa Setoid Sorting.Sorted Arith.
+From SV Require Import Sx Beat Engine Proofs.C14 Proofs.EngineFacts Proofs.Hittable Proofs.TimeLaw.
 Import ListNotations.
 Open Scope Q_scope.
 
@@ -212,3 +212,73 @@ Proof.
   - rewrite <- Ek. ring.
 Qed.
 End RoundTrip.
+
+(* ================================================================== 3. the half-tick bound of the rounding *)
+Lemma tick_round_near x : Qabs (tick_round x - x) <= 1 # 96.
+Proof.
+  unfold tick_round. rewrite Qred_correct. destruct x as [n d]. cbn [Qnum Qden].
+  pose proof (round_he_nearest (SUBDIV * n) (Zpos d) ltac:(lia)) as H. fold (round_tick n (Zpos d)) in H.
+  set (r := round_tick n (Zpos d)) in *. clearbody r. unfold SUBDIV in H.
+  apply Qabs_Qle_condition. unfold Qle, Qminus, Qplus, Qopp. cbn [Qnum Qden]. split; lia.
+Qed.
+
+(* strictly between state times, outside a pause: the answer is within half a tick (1/96 beat) of the exact beat
+   position s_beat + elapsed beats - so its own time is within half a tick's duration of the asked time *)
+Theorem beat_at_half_tick pre s post d t q :
+  times_sorted (pre ++ s :: post) -> is_pause_tag (s_tag s) = false ->
+  s_time s < t -> (forall x, In x post -> t < s_time x) ->
+  Qabs (fst (beat_at_raw (pre ++ s :: post) d t q) - (s_beat s + (t - s_time s) / 60 * s_bpm s)) <= 1 # 96.
+Proof.
+  intros Hs Hp Ht Hpost. rewrite (beat_at_between pre s post d t q Hs Hp Ht Hpost).
+  setoid_replace (s_beat s + tick_round ((t - s_time s) / 60 * s_bpm s) - (s_beat s + (t - s_time s) / 60 * s_bpm s))
+    with (tick_round ((t - s_time s) / 60 * s_bpm s) - (t - s_time s) / 60 * s_bpm s) by ring.
+  apply tick_round_near.
+Qed.
+
+(* ================================================================== 4. the rounding is monotone *)
+Lemma round_he_mono n m d : (0 < d)%Z -> (n <= m)%Z -> (round_he n d <= round_he m d)%Z.
+Proof.
+  intros Hd Hnm.
+  pose proof (Z.div_mod n d ltac:(lia)) as En. pose proof (Z.div_mod m d ltac:(lia)) as Em.
+  pose proof (Z.mod_pos_bound n d Hd) as Bn. pose proof (Z.mod_pos_bound m d Hd) as Bm.
+  assert (Hq : (n / d <= m / d)%Z) by (apply Z.div_le_mono; lia).
+  unfold round_he. set (qn := (n / d)%Z) in *. set (qm := (m / d)%Z) in *. set (rn := (n mod d)%Z) in *. set (rm := (m mod d)%Z) in *.
+  clearbody qn qm rn rm.
+  destruct (Z.eq_dec qn qm) as [->|Hne].
+  - assert (rn <= rm)%Z by nia.
+    destruct (2 * rn <? d)%Z eqn:A1; destruct (2 * rm <? d)%Z eqn:B1; try lia;
+    destruct (d <? 2 * rn)%Z eqn:A2; destruct (d <? 2 * rm)%Z eqn:B2; try lia; destruct (Z.even qm); lia.
+  - assert (qn + 1 <= qm)%Z by lia.
+    destruct (2 * rn <? d)%Z; destruct (2 * rm <? d)%Z; destruct (d <? 2 * rn)%Z; destruct (d <? 2 * rm)%Z; destruct (Z.even qn); destruct (Z.even qm); lia.
+Qed.
+
+Lemma tick_round_mono x y : x <= y -> tick_round x <= tick_round y.
+Proof.
+  intro H. destruct x as [n d]. destruct y as [m e].
+  assert (Ex : (n # d) == ((n * Zpos e) # (d * e))) by (unfold Qeq; simpl; lia).
+  assert (Ey : (m # e) == ((m * Zpos d) # (d * e))) by (unfold Qeq; simpl; lia).
+  rewrite (tick_round_compat _ _ Ex), (tick_round_compat _ _ Ey). unfold tick_round. rewrite !Qred_correct. cbn [Qnum Qden].
+  unfold Qle in *. cbn [Qnum Qden] in *. unfold round_tick.
+  assert (Hm : (round_he (SUBDIV * (n * Zpos e)) (Zpos (d * e)) <= round_he (SUBDIV * (m * Zpos d)) (Zpos (d * e)))%Z).
+  { apply round_he_mono; [lia|]. unfold SUBDIV. nia. }
+  lia.
+Qed.
+
+(* between the same two states the answer never decreases as time increases *)
+Theorem beat_at_monotone_local pre s post d t1 t2 q :
+  times_sorted (pre ++ s :: post) -> 0 < s_bpm s ->
+  s_time s < t1 -> t1 <= t2 -> (forall x, In x post -> t2 < s_time x) ->
+  fst (beat_at_raw (pre ++ s :: post) d t1 q) <= fst (beat_at_raw (pre ++ s :: post) d t2 q).
+Proof.
+  intros Hs Hb H1 H12 Hpost.
+  assert (Hpost1 : forall x, In x post -> t1 < s_time x) by (intros x Hx; specialize (Hpost x Hx); lra).
+  destruct (is_pause_tag (s_tag s)) eqn:P.
+  - rewrite (beat_at_in_pause pre s post d t1 q Hs P H1 Hpost1), (beat_at_in_pause pre s post d t2 q Hs P) by (try assumption; lra). lra.
+  - rewrite (beat_at_between pre s post d t1 q Hs P H1 Hpost1), (beat_at_between pre s post d t2 q Hs P) by (try assumption; lra).
+    assert (M : tick_round ((t1 - s_time s) / 60 * s_bpm s) <= tick_round ((t2 - s_time s) / 60 * s_bpm s)).
+    { apply tick_round_mono. unfold Qdiv.
+      setoid_replace ((t1 - s_time s) * / 60 * s_bpm s) with ((t1 - s_time s) * (/ 60 * s_bpm s)) by ring.
+      setoid_replace ((t2 - s_time s) * / 60 * s_bpm s) with ((t2 - s_time s) * (/ 60 * s_bpm s)) by ring.
+      apply Qmult_le_compat_r; [lra|]. assert (0 < / 60) by reflexivity. apply Qlt_le_weak. apply Qmult_lt_0_compat; assumption. }
+    lra.
+Qed.
